@@ -19,20 +19,27 @@ package dns
 
 // every envelope is verified whenever a TSIG provider is configured: success implies the verification of
 // this very envelope returned nil
-//@ func (*Transfer).ReadMsg [C15]
+//@ func (*Transfer).ReadMsg [C15 C11:chain]
 //@   opt no-safety
 //@   requires t != nil
 //@   exit verified: ret1 == nil && ret0 != nil && callres("tsigProvider") != nil ==> called("TsigVerifyWithProvider") && callres("TsigVerifyWithProvider") == nil
 //@   exit some: ret1 == nil ==> ret0 != nil
+// ... over the octets as received, with the stored request MAC and the transfer's timers-only mode
+//@   callsite "TsigVerifyWithProvider" chain: same(arg0, p) && arg1 == tp && arg2 == t.Conn.tsigRequestMAC && arg3 == t.tsigTimersOnly
 
 // AXFR reader: records are handed on only from a message with the query's ID; the first message must have
 // RCODE 0 and start with an SOA; the transfer ends at (and only at) a later message that ends with an SOA
-//@ func (*Transfer).inAxfr [C15]
+//@ func (*Transfer).inAxfr [C15 C11:timers]
 //@   opt no-safety
 //@   requires t != nil && q != nil
 //@   assert at "c <- &Envelope{in.Answer, nil}@1" first: q.Id == in.Id && in.Rcode == 0 && callres("isSOAFirst") && len(in.Answer) == 1
 //@   assert at "c <- &Envelope{in.Answer, nil}@2" last: q.Id == in.Id && in.Rcode == 0 && callres("isSOALast") && !first
 //@   assert at "c <- &Envelope{in.Answer, nil}@3" more: q.Id == in.Id && in.Rcode == 0 && !callres("isSOALast") && !first
+// RFC 8945 5.3.1: once the first envelope has been accepted, every later one is verified in timers-only mode (the
+// sender signs them so); the mode is switched before the accepted envelope is handed on, on every path
+//@   assert at "c <- &Envelope{in.Answer, nil}@1" timers1: t.tsigTimersOnly
+//@   assert at "c <- &Envelope{in.Answer, nil}@2" timers2: t.tsigTimersOnly
+//@   assert at "c <- &Envelope{in.Answer, nil}@3" timers3: t.tsigTimersOnly
 // no silent end: between reading a message and returning, exactly one envelope is handed to the consumer, and when
 // the read failed it carries that error
 //@   ghost s0 at "in, err := t.ReadMsg()" sends()
@@ -41,13 +48,15 @@ package dns
 
 // IXFR reader: same admission rules on every message; the transfer ends with the single-SOA "up to date"
 // answer, or when the server's serial has been seen twice in AXFR style or three times in IXFR style
-//@ func (*Transfer).inIxfr [C15]
+//@ func (*Transfer).inIxfr [C15 C11:timers]
 //@   opt no-safety
 //@   requires t != nil && q != nil
 //@   assert at "c <- &Envelope{in.Answer, nil}@1" uptodate: q.Id == in.Id && in.Rcode == 0 && n == 0 && callres("isSOAFirst") && qser >= serial
 //@   assert at "t.tsigTimersOnly = true" behind: n == 0 ==> qser < serial
 //@   assert at "c <- &Envelope{in.Answer, nil}@2" done: q.Id == in.Id && in.Rcode == 0 && ((axfr && n == 2) || n == 3)
 //@   assert at "c <- &Envelope{in.Answer, nil}@3" more: q.Id == in.Id && in.Rcode == 0 && n < 3 && !(axfr && n == 2)
+//@   assert at "c <- &Envelope{in.Answer, nil}@2" timers2: t.tsigTimersOnly
+//@   assert at "c <- &Envelope{in.Answer, nil}@3" timers3: t.tsigTimersOnly
 //@   ghost s0 at "in, err := t.ReadMsg()" sends()
 //@   exit told: sends() == s0 + 1
 //@   assert at "c <- &Envelope{nil, err}" readerr: err != nil && err == callres("ReadMsg", 1)
